@@ -7,6 +7,7 @@
 import ASV.Proofs.ProtoRing
 import ASV.Proofs.LocExtendArea
 import ASV.Proofs.LocConnectRingPerm
+import ASV.Proofs.ProtoExtend
 namespace ASV.Proto
 open ASV ASV.Chains
 
@@ -724,5 +725,119 @@ theorem findCores_ring_cover (r : Rec) (hcirc : r.circular = true) (hL : 0 < r.l
           obtain ⟨k, hk, hc⟩ := hswept
           obtain ⟨k', hk', hc'⟩ := f2 k (by simpa using hk)
           exact ⟨k', hk', hc'.trans hc⟩
+
+/-! ### through the later stages: cores stay areas -/
+
+theorem foldlM_connect_ring_area (r : Rec) (hcirc : r.circular = true) (hL : 0 < r.len) :
+    ∀ (l : List GeneInfo) (core out : Loc), (∀ g ∈ l, RingIn r.len g.loc) → RingArea r.len core →
+      l.foldlM (fun core cds => connect [cds.loc, core] r.wrap) core = .ok out →
+      RingArea r.len out ∧ Covers out core := by
+  have hw : r.wrap = some r.len := by simp [Rec.wrap, hcirc]
+  intro l
+  induction l with
+  | nil => intro core out _ hc h; simp only [List.foldlM_nil, pure, Except.pure, Except.ok.injEq] at h; subst h; exact ⟨hc, Covers.refl _⟩
+  | cons g rest ih =>
+    intro core out hin hc h
+    obtain ⟨c1, hc1, a1, cov1⟩ := connect_ring_area [g.loc, core] r.len (by simp) hL
+      (by intro l hl; simp at hl; rcases hl with rfl | rfl; exact hin g (by simp); exact hc.ringIn)
+    simp only [List.foldlM_cons, hw, hc1, bind, Except.bind] at h
+    obtain ⟨o1, o2⟩ := ih c1 out (fun x hx => hin x (by simp [hx])) a1 (by simpa [hw] using h)
+    exact ⟨o1, o2.trans (cov1 _ (by simp))⟩
+
+theorem markExt_sub (r : Rec) (rule : RuleM) (core : Loc) (prev : GeneInfo) (w : List GeneInfo) :
+    ∀ x ∈ markExt r rule core prev w, x ∈ w := by
+  rw [markExt_eq]; exact specWalk_sub _ _ _ _ w prev
+
+theorem cycle_sub (r : Rec) (items : List GeneInfo) (i : Nat) (b : Bool) : ∀ x ∈ cycle r items i b, x ∈ items := by
+  intro x hx
+  cases b <;> cases hc : r.circular <;>
+    simp only [cycle, hc, Bool.false_eq_true, if_false, if_true, List.mem_append, List.mem_reverse] at hx
+  · exact List.mem_of_mem_take hx
+  · rcases hx with hx | hx
+    · exact List.mem_of_mem_take hx
+    · exact List.mem_of_mem_drop hx
+  · exact List.mem_of_mem_drop hx
+  · rcases hx with hx | hx
+    · exact List.mem_of_mem_drop hx
+    · exact List.mem_of_mem_take hx
+
+theorem extendCluster_ring_area (within : Lookup) (r : Rec) (hcirc : r.circular = true) (hL : 0 < r.len)
+    (rules : List RuleM) (hgenes : ∀ g ∈ r.genes, RingIn r.len g.loc) (pc pc' : PC) (d : Doms)
+    (harea : RingArea r.len pc.core) (h : extendCluster within r rules pc = .ok (pc', d)) :
+    RingArea r.len pc'.core ∧ pc'.rule = pc.rule ∧ Covers pc'.core pc.core := by
+  simp only [extendCluster, bind, Except.bind] at h
+  cases hr : findRule rules pc.rule with
+  | error e => simp [hr] at h
+  | ok rule =>
+    simp only [hr] at h
+    have hname : rule.name = pc.rule := by
+      simp only [findRule] at hr
+      cases hf : rules.find? (·.name == pc.rule) with
+      | none => simp [hf] at hr
+      | some x =>
+        simp only [hf, pure, Except.pure, Except.ok.injEq] at hr
+        subst hr
+        simpa using List.find?_some hf
+    cases hb : bisectLeft r.genes pc.core with
+    | error e => simp [hb] at h
+    | ok idx =>
+      simp only [hb] at h
+      split at h
+      · next firstC lastC _ _ =>
+        cases h1 : (markExt r rule pc.core firstC (cycle r r.genes idx false)).foldlM
+            (fun core cds => connect [cds.loc, core] r.wrap) pc.core with
+        | error e => simp [h1] at h
+        | ok core1 =>
+          simp only [h1] at h
+          obtain ⟨a1, c1⟩ := foldlM_connect_ring_area r hcirc hL _ pc.core core1
+            (fun g hg => hgenes g (cycle_sub r r.genes idx false g (markExt_sub r rule pc.core firstC _ g hg))) harea h1
+          cases h2 : (markExt r rule core1 lastC (cycle r r.genes idx true)).foldlM
+              (fun core cds => connect [cds.loc, core] r.wrap) core1 with
+          | error e => simp [h2] at h
+          | ok core2 =>
+            simp only [h2] at h
+            obtain ⟨a2, c2⟩ := foldlM_connect_ring_area r hcirc hL _ core1 core2
+              (fun g hg => hgenes g (cycle_sub r r.genes idx true g (markExt_sub r rule core1 lastC _ g hg))) a1 h2
+            split at h
+            · cases h
+            · cases he : extendArea r core2 rule.nbhd true with
+              | error e => simp [he] at h
+              | ok s =>
+                simp only [he] at h
+                cases hm : mkPC rule.name core2 s with
+                | error e => simp [hm] at h
+                | ok q =>
+                  simp only [hm, pure, Except.pure, Except.ok.injEq, Prod.mk.injEq] at h
+                  have := mkPC_ok hm
+                  subst this
+                  obtain ⟨rfl, _⟩ := h
+                  exact ⟨a2, hname, c2.trans c1⟩
+      · cases h
+
+theorem filterE_ok_sub {α : Type} (p : α → E Bool) : ∀ (l out : List α), filterE p l = .ok out → ∀ x ∈ out, x ∈ l := by
+  intro l
+  induction l with
+  | nil => intro out h x hx; simp only [filterE, pure, Except.pure, Except.ok.injEq] at h; subst h; cases hx
+  | cons a l ih =>
+    intro out h x hx
+    simp only [filterE, bind, Except.bind] at h
+    cases hp : p a with
+    | error e => simp [hp] at h
+    | ok b =>
+      simp only [hp] at h
+      cases hrest : filterE p l with
+      | error e => simp [hrest] at h
+      | ok rest =>
+        simp only [hrest, pure, Except.pure, Except.ok.injEq] at h
+        subst h
+        cases b with
+        | true =>
+          simp only [if_true, List.mem_cons] at hx
+          rcases hx with rfl | hx
+          · simp
+          · exact List.mem_cons_of_mem _ (ih rest hrest x hx)
+        | false =>
+          simp only [Bool.false_eq_true, if_false] at hx
+          exact List.mem_cons_of_mem _ (ih rest hrest x hx)
 
 end ASV.Proto
